@@ -264,6 +264,13 @@ def twin_sources(src):
     return None
 
 
+TLA_ITEMS = [("g3:toplevel_await", "import asyncio\nx = await asyncio.sleep(0)\n", "exec"), ("g3:toplevel_async_with", "async with a as b:\n    pass\n", "exec"),
+             ("g3:toplevel_async_for", "async for i in a:\n    print(i)\n", "exec"), ("g3:toplevel_await_unused", "x = 1\ndef f(): return x\n", "exec"),
+             ("g3:toplevel_await_eval", "await x", "eval"), ("g3:toplevel_await_single", "await x", "single")]
+FILENAME_SRC = "def f(a):\n    \"doc\"\n    return [a for _ in a]\nclass C:\n    x = lambda: 1\n"
+FILENAMES = ["<unknown>", "<string>", "<stdin>", "", "a b.py", "<module>", "f"]
+
+
 def walk_code(code, path=()):
     """Yield (path, code) for a code object and everything nested in its constants."""
     yield path, code
@@ -313,10 +320,15 @@ def corpus(tier, seed, want=("g1", "g2", "g3", "g4"), g4_limit="default"):
         g1 = [it for it in items if it[0].startswith("g1:")]
         units += compile_all(g1 if full else g1[::3], flag_sets=(_future_annotations_flag(),))
     if "g3" in want and sys.version_info >= (3, 8):   # top-level await (compile() flag since 3.8; what `python -m asyncio` uses)
-        tla = [("g3:toplevel_await", "import asyncio\nx = await asyncio.sleep(0)\n", "exec"), ("g3:toplevel_async_with", "async with a as b:\n    pass\n", "exec"),
-               ("g3:toplevel_async_for", "async for i in a:\n    print(i)\n", "exec"), ("g3:toplevel_await_unused", "x = 1\ndef f(): return x\n", "exec"),
-               ("g3:toplevel_await_eval", "await x", "eval"), ("g3:toplevel_await_single", "await x", "single")]
+        tla = TLA_ITEMS
         units += compile_all(tla, flag_sets=(0x2000,))
+    if "g3" in want:      # file names that tools use as placeholders, and odd ones
+        src = FILENAME_SRC
+        for i, fname in enumerate(FILENAMES):
+            try:
+                units.append(("g3:filename%d" % i, compile(src, fname, "exec", dont_inherit=True), {"source_id": "g3:filename%d" % i, "mode": "exec", "optimize": 0, "flags": 0, "filename": fname}))
+            except (SyntaxError, ValueError):
+                pass
     if "g4" in want:
         import warnings
         for fn in g4_stdlib_files((None if full else 24) if g4_limit == "default" else g4_limit, seed):
